@@ -29,12 +29,14 @@ Check C16_legend_entries_read_back :
     parse_css_legend (header_src b1 b2 b3 eol ++ entry_src e0 t0 ++ more_src eol es) = Some (e0 :: map fst es).
 
 (** From the header line on nothing is drawn: the cell buffer is the one of the text before
-    the header, and its styles are the entries. *)
+    the header, and its styles are the entries, with LF or CRLF line ends (the legend is read
+    with CRLF taken as LF, repair F13; declarations are taken without a CR of their own). *)
 Theorem C16_legend_is_not_drawn :
   forall before eol e0 t0 es,
     Forall (fun c => c <> 35) before -> eol_ok eol ->
-    is_ident (fst e0) -> no_brace (snd e0) -> blank_run t0 ->
+    is_ident (fst e0) -> no_brace (snd e0) -> cr_free (snd e0) -> blank_run t0 ->
     Forall (fun et => is_ident (fst (fst et)) /\ no_brace (snd (fst et)) /\ blank_run (snd et)) es ->
+    Forall (fun et => cr_free (snd (fst et))) es ->
     cellbuffer_from (before ++ header_src [] [32] [] eol ++ entry_src e0 t0 ++ more_src eol es)
     = cellbuffer_of_text before (e0 :: map fst es).
 Proof. exact cellbuffer_with_legend. Qed.
